@@ -226,7 +226,7 @@ class Spec(core.PropSpec):
                     hook=ro.random() < 0.93, clobbers=[ro.choice([None, ["np", ro.randint(0, 99)], ["torch", 1], ["py", 2]]) for _ in range(4)],
                     sched_seed=ro.getrandbits(32), amb_main=rw.getrandbits(30), main_hook_rank=ro.choice([None, None, None, 0, 1]),
                     start_method=core.Streams(seed)("preempt").choice(["fork", "fork", "spawn"]),
-                    preempt_rate=core.Streams(seed)("preempt2").choice([0, 0, 0, 0.05, 0.3]),
+                    preempt_rate=core.Streams(seed)("preempt2").choice([0, 0, 0, 0, 0, 0, 0, 0, 0.05, 0.3]),
                     env_change=core.Streams(seed)("env").choice([None, None, None, {"RANK": 1, "WORLD_SIZE": 4}, {"SLURM_PROCID": 3}, {"LOCAL_RANK": 2, "RANK": 5}]))
 
     def shrink_candidates(self, plan):
